@@ -30,6 +30,8 @@ EXTRA = [
     '<ms><xsl:message>note <xsl:value-of select="count(//*)"/></xsl:message></ms>',
     '<nm><xsl:for-each select="//*"><xsl:number level="multiple" count="*" format="1.a.I"/>;</xsl:for-each></nm>',
     '<ky><xsl:for-each select="//*"><xsl:value-of select="count(key(\'ev\', .))"/>.</xsl:for-each></ky>',
+    # number -> string conversion of non-integral doubles (value-of, AVT, string()): any static scratch buffer would be shared
+    '<nv><xsl:for-each select="//*"><v a="{(count(preceding::*) + 1) div 7}"><xsl:value-of select="count(ancestor::*) div 3 + 0.1"/>;<xsl:value-of select="string(1 div (count(*) + 3))"/></v></xsl:for-each></nv>',
 ]
 POOL = c13.OBSERVERS + EXTRA
 D2 = '<r xmlns:q="urn:q"><b i="1"/><b i="2" q:j="x">t</b><b i="3"/><!--c--></r>'
